@@ -16,6 +16,28 @@ Proof. reflexivity. Qed.
 Lemma k_obs_length_blocks n spb_ tbin : src_record_obs_length n (src_time_per_block spb_ tbin) == inject_Z (n * spb_) * tbin.
 Proof. unfold src_record_obs_length, src_time_per_block. rewrite inject_Z_mult. ring. Qed.
 
+(* get_num_blocks(obs_length): for a non-negative duration it is floor(obs_length / time_per_block) when block_size holds spb samples of
+   every antenna and channel and |chan_bw| = 1 / tbin *)
+Theorem k_get_num_blocks obs cbw tbin nants nchans bps_ spb_ : 0 <= obs -> 0 < tbin -> (1 <= nants)%Z -> (1 <= nchans)%Z -> (1 <= bps_)%Z -> (1 <= spb_)%Z ->
+  Qabs cbw == / tbin ->
+  src_get_num_blocks obs cbw nants nchans bps_ (spb_ * (nants * nchans * bps_)) = Qfloor (obs / (inject_Z spb_ * tbin)).
+Proof.
+  intros Ho Ht Ha Hc Hb Hs Hw. unfold src_get_num_blocks.
+  assert (N1 : ~ inject_Z nants == 0) by (intros E; unfold Qeq in E; cbn in E; lia).
+  assert (N2 : ~ inject_Z nchans == 0) by (intros E; unfold Qeq in E; cbn in E; lia).
+  assert (N3 : ~ inject_Z bps_ == 0) by (intros E; unfold Qeq in E; cbn in E; lia).
+  assert (N4 : ~ inject_Z spb_ == 0) by (intros E; unfold Qeq in E; cbn in E; lia).
+  assert (N5 : ~ tbin == 0) by (intros E; rewrite E in Ht; discriminate).
+  assert (E : obs * Qabs cbw * inject_Z nants * inject_Z nchans * inject_Z bps_ / inject_Z (spb_ * (nants * nchans * bps_)) == obs / (inject_Z spb_ * tbin)).
+  { rewrite Hw, !inject_Z_mult. field. repeat split; assumption. }
+  assert (P : 0 <= obs / (inject_Z spb_ * tbin)).
+  { apply Qle_shift_div_l; [|rewrite Qmult_0_l; exact Ho].
+    apply Qmult_lt_0_compat; [|exact Ht]. change 0 with (inject_Z 0). rewrite <- Zlt_Qlt. lia. }
+  unfold qtrunc.
+  assert (Q0 : 0 <= obs * Qabs cbw * inject_Z nants * inject_Z nchans * inject_Z bps_ / inject_Z (spb_ * (nants * nchans * bps_))) by (rewrite E; exact P).
+  apply Qle_bool_iff in Q0. rewrite Q0. apply Qfloor_comp. exact E.
+Qed.
+
 Theorem k20_all c n start spb_ tbin :
   src_bytes_per_sample (npols c) (nbits c) = bps c /\ src_samples_per_block (block_size c) (nants c) (nchans c) (bps c) = spb c /\
   src_total_obs_num_samples n (spb c) (nb c) = total_samples c n /\ src_pktstop start n (spb c) = pktstop c start n /\
